@@ -87,6 +87,7 @@ plain_field!(P97, F97, u32, 97u64, 5u64, 5, 28u64); // 5^3 = 28 has order 32
 plain_field!(P101, F101, u32, 101u64, 2u64, 2, 10u64); // 2^25 mod 101 = 10 (order 4)
 plain_field!(P251, F251, u32, 251u64, 6u64, 1, 250u64); // 8-bit modulus (bit length multiple of 8)
 plain_field!(P61, F61, u128, 2305843009213693951u64, 37u64, 1, 2305843009213693950u64);
+plain_field!(P63, F63, u128, 9223372036854775783u64, 3u64, 1, 9223372036854775782u64); // 2^63 - 25: exactly one spare bit
 plain_field!(P64, F64, u128, 18446744073709551557u64, 2u64, 2, 18446744073709551556u64);
 
 /// a symbolic, canonical element of a plain field
